@@ -1,4 +1,5 @@
-import Mochi.Lemmas.PropsRoundtrip
+import Mochi.Lemmas.PacketRoundtripSub
+import Mochi.Lemmas.PacketRoundtripConnect
 import Mochi.Lemmas.CodecNoPanic
 /-!
 # C26 — Packet codec round-trips every well-formed packet
@@ -197,5 +198,97 @@ example : decodeBody 5 { type := 4, remaining := 3 } [0, 7, 0x10] =
     .ok { protocolVersion := 5, fixedHeader := { type := 4, remaining := 3 }, packetID := 7, reasonCode := 0x10 } := by
   have := C26_ack_reason_partial 4 (Or.inl rfl) 0 7 0x10 (by omega)
   simpa [encodeUint16] using this
+
+/-! ## Assembly: every packet type -/
+
+/-- the body (everything behind the fixed header) the encoder writes for `pk` -/
+def bodyOf (pk : Packet) : Str :=
+  let t := pk.fixedHeader.type
+  if t = 1 then connectBody pk else if t = 2 then connackBody pk else if t = 3 then publishBody pk
+  else if t = 4 ∨ t = 5 ∨ t = 6 ∨ t = 7 then ackBody pk
+  else if t = 8 then subscribeBody pk else if t = 9 then subackBody pk else if t = 10 then unsubscribeBody pk
+  else if t = 11 then unsubackBody pk else if t = 14 then disconnectBody pk else if t = 15 then authBody pk
+  else []
+
+/-- **`norm`**: the packet as a decoder sees it — fixed header with the exact remaining length, the
+    fields this packet type and protocol version transmit, the property block after the encoder's
+    suppression (`normProps`), everything else (including the encoder options `mods`) at its zero value -/
+def normPacket (pk : Packet) : Packet :=
+  let t := pk.fixedHeader.type
+  if t = 1 then connectNorm pk else if t = 2 then connackNorm pk else if t = 3 then publishNorm pk
+  else if t = 4 ∨ t = 5 ∨ t = 6 ∨ t = 7 then ackNorm pk
+  else if t = 8 then subscribeNorm pk else if t = 9 then subackNorm pk else if t = 10 then unsubscribeNorm pk
+  else if t = 11 then unsubackNorm pk else if t = 14 then disconnectNorm pk else if t = 15 then authNorm pk
+  else basePacket pk []
+
+/-- **`WF`**: a packet type 1–15 with the flag bits MQTT prescribes, every transmitted field in range
+    for its wire representation (see the per-type `WF…` predicates) -/
+def WFPacket (pk : Packet) : Prop :=
+  let t := pk.fixedHeader.type
+  if t = 1 then WFConnect pk else if t = 2 then WFConnack pk else if t = 3 then WFPublish pk
+  else if t = 4 ∨ t = 5 ∨ t = 6 ∨ t = 7 then WFAck pk
+  else if t = 8 then WFSubscribe pk else if t = 9 then WFSuback pk else if t = 10 then WFUnsubscribe pk
+  else if t = 11 then WFUnsuback pk else if t = 12 ∨ t = 13 then WFPing pk
+  else if t = 14 then WFDisconnect pk else if t = 15 then WFAuth pk
+  else False
+
+theorem roundTrips_full {pk : Packet} {body : Str} {np : Packet} (h : RoundTrips pk body np) :
+    ∃ hb body, encodePacket pk = .ok (hb :: encodeLength body.length ++ body) ∧
+      (fixedHeaderDecode hb).toOption.map (fun fh => decodeBody pk.protocolVersion { fh with remaining := body.length } body)
+        = some (.ok np) := by
+  obtain ⟨h1, h2, h3⟩ := h
+  refine ⟨_, body, h1, ?_⟩
+  rw [h2]
+  simp only [Except.toOption, Option.map_some]
+  exact congrArg some h3
+
+/-- all ten groups of packet types, one statement: a well-formed packet round-trips to `normPacket` with
+    `bodyOf` as its body -/
+theorem C26_roundTrips (pk : Packet) (h : WFPacket pk) : RoundTrips pk (bodyOf pk) (normPacket pk) := by
+  unfold WFPacket at h
+  unfold bodyOf normPacket
+  simp only [] at h ⊢
+  split at h
+  · rename_i ht; simp only [ht, if_true]; exact C26_connect_roundtrip pk ht h
+  split at h
+  · rename_i _ ht; simp only [ht]; exact C26_connack_roundtrip pk ht h
+  split at h
+  · rename_i _ _ ht; simp only [ht]; exact C26_publish_roundtrip pk ht h
+  split at h
+  · rename_i h1 h2 h3 ht
+    have := C26_ack_roundtrip pk ht h
+    rcases ht with ht | ht | ht | ht <;> simpa [ht] using this
+  split at h
+  · rename_i _ _ _ _ ht; simp only [ht]; exact C26_subscribe_roundtrip pk ht h
+  split at h
+  · rename_i _ _ _ _ _ ht; simp only [ht]; exact C26_suback_roundtrip pk ht h
+  split at h
+  · rename_i _ _ _ _ _ _ ht; simp only [ht]; exact C26_unsubscribe_roundtrip pk ht h
+  split at h
+  · rename_i _ _ _ _ _ _ _ ht; simp only [ht]; exact C26_unsuback_roundtrip pk ht h
+  split at h
+  · rename_i _ _ _ _ _ _ _ _ ht
+    have := C26_ping_roundtrip pk ht h
+    rcases ht with ht | ht <;> simpa [ht] using this
+  split at h
+  · rename_i _ _ _ _ _ _ _ _ _ ht; simp only [ht]; exact C26_disconnect_roundtrip pk ht h
+  split at h
+  · rename_i _ _ _ _ _ _ _ _ _ _ ht; simp only [ht]; exact C26_auth_roundtrip pk ht h
+  · exact h.elim
+
+/-- **C26, full statement**: for every protocol version and every packet type, a well-formed packet is
+    encoded as header byte, exact remaining length and body; the header byte decodes to the packet's
+    type and flags; the body decodes to the packet modulo the encoder's documented suppression and
+    the defaults of untransmitted fields (`normPacket`). -/
+theorem C26_roundtrip : C26_full_statement normPacket WFPacket :=
+  fun pk h => roundTrips_full (C26_roundTrips pk h)
+
+/-- … and the remaining length the encoder wrote is exact: the variable-byte integer behind the header
+    byte decodes to the number of bytes that follow it, and those bytes are the body -/
+theorem C26_remaining_exact (pk : Packet) (h : WFPacket pk) (hlen : (bodyOf pk).length ≤ maxVBI) :
+    ∃ hb rest k, encodePacket pk = .ok (hb :: rest) ∧ decodeLength rest = .ok ((bodyOf pk).length, k) ∧
+      rest.drop k = bodyOf pk ∧ (rest.drop k).length = (bodyOf pk).length := by
+  obtain ⟨h1, _, _⟩ := C26_roundTrips pk h
+  refine ⟨_, _, _, h1, decodeLength_encode_append _ _ hlen, ?_, ?_⟩ <;> simp
 
 end Mochi.Codec
